@@ -59,6 +59,7 @@ type Contract struct {
 	Src       string
 	Unroll    map[int]int
 	Props     []string
+	Callsites []*CallsiteReq
 }
 
 type SpecFunc struct {
@@ -102,7 +103,17 @@ type CallsiteReq struct {
 }
 
 // SpecSet is everything parsed from contract and extern files.
+// SweepDecl demands that every call of the listed callees made anywhere in the package is covered by a callsite clause
+// of the enclosing function's contract.
+type SweepDecl struct {
+	Pkg     string
+	Callees []string
+	Prop    string
+	Src     string
+}
+
 type SpecSet struct {
+	Sweeps    []*SweepDecl
 	Contracts map[string]*Contract // key: pkgpath + "::" + Key
 	Funcs     map[string]*SpecFunc // key: name (global namespace)
 	Axioms    []*Axiom
@@ -379,9 +390,26 @@ func (ss *SpecSet) LoadContractFile(path string, pkgPath string) error {
 				return fmt.Errorf("%s: guarded T.f by lock", src)
 			}
 			ss.Guards = append(ss.Guards, &GuardDecl{Type: tf[0], Field: tf[1], Lock: parts[2], Pkg: pkgPath})
-		case "callsite":
+		case "sweep":
+			// sweep <PROP> callee1, callee2, ...
 			cur = nil
-			// callsite <callee full name>(p1, p2): requires expr
+			prop, r2 := splitWord(rest)
+			sd := &SweepDecl{Pkg: pkgPath, Prop: prop, Src: src}
+			for _, n := range strings.Split(r2, ",") {
+				if n = strings.TrimSpace(n); n != "" {
+					sd.Callees = append(sd.Callees, n)
+				}
+			}
+			ss.Sweeps = append(ss.Sweeps, sd)
+		case "callsite":
+			owner := cur
+			if !strings.Contains(rest, " requires ") {
+				return fmt.Errorf("%s: callsite callee(params) requires expr", src)
+			}
+			if owner == nil {
+				cur = nil
+			}
+			// callsite <callee full name>(p1, p2) requires expr
 			ri := strings.Index(rest, " requires ")
 			if ri < 0 {
 				return fmt.Errorf("%s: callsite callee(params) requires expr", src)
@@ -398,7 +426,12 @@ func (ss *SpecSet) LoadContractFile(path string, pkgPath string) error {
 			if err != nil {
 				return err
 			}
-			ss.Callsites = append(ss.Callsites, &CallsiteReq{Callee: head, Params: params, Req: c, Pkg: pkgPath})
+			cr := &CallsiteReq{Callee: head, Params: params, Req: c, Pkg: pkgPath}
+			if owner != nil {
+				owner.Callsites = append(owner.Callsites, cr)
+			} else {
+				ss.Callsites = append(ss.Callsites, cr)
+			}
 		case "pure":
 			cur = nil
 			for _, n := range strings.Split(rest, ",") {
